@@ -328,6 +328,7 @@ def run_specs(specs):
                 fn.is_init = (meth == "__init__")
                 fn.ret = msp.get("ret")
                 fn.cls = cname
+                fn.prop = item.get("property")
                 owner, mnode = (None, None) if node is None else reg.find_method(cname, meth)
                 if mnode is None:
                     fn.unsupported = "method {}.{} not found in the source".format(cname, meth)
@@ -354,6 +355,7 @@ def run_specs(specs):
             fn = FnInfo(name, item.get("lean", name.lstrip("_")), list(item["params"].items()), vararg=item.get("vararg"))
             fn.ret = item.get("ret")
             fn.cls = None
+            fn.prop = item.get("property")
             node = None
             if tree is not None:
                 for n in tree.body:
